@@ -232,6 +232,9 @@ def e2e(rep, tier, seed):
                     cfgs = [p["header"]]
                     if n % 2 == 0 and not any(k in ("style_edition", "version") for k, _ in p["header"]):
                         cfgs.append(pool.merged(p["header"], [["style_edition", "2024"]]))
+                    else:
+                        # and at another width (the comment then sits next to different line breaks)
+                        cfgs.append(pool.merged(p["header"], [["max_width", ["30", "50", "70", "140"][n % 4]]]))
                     for cfg in cfgs:
                         cases.append({"text": text.decode("utf-8", "replace"), "config": cfg, "again": False, "lex": False})
                         meta.append((p["id"], kind, style, mark))
@@ -262,7 +265,7 @@ def e2e(rep, tier, seed):
                 found += 1
     rep.coverage["e2e_injections_judged"] = n
     rep.coverage["e2e_per_position"] = {"%s/%s" % k: v for k, v in sorted(per.items())}
-    rep.coverage["e2e_rule"] = "pool source programs (thorough: all; quick: the 1/%d selected by the seed) x up to 2 elements of each kind %s x {block comment before, line comment on its own line before, line comment / block comment at the end of the element's line} under the program's configuration (and, for every other injection, style_edition 2024): the marker comment must appear exactly once in the output of every accepted run; plus 66 synthetic expressions with a comment only the safety net can keep, after char / byte / string / raw-string literals containing quotes and comment openers" % (MOD, E2E_KINDS)
+    rep.coverage["e2e_rule"] = "pool source programs (thorough: all; quick: the 1/%d selected by the seed) x up to 2 elements of each kind %s x {block comment before, line comment on its own line before, line comment / block comment at the end of the element's line} under the program's configuration and, alternating, style_edition 2024 or another max_width (30 / 50 / 70 / 140): the marker comment must appear exactly once in the output of every accepted run; plus 66 synthetic expressions with a comment only the safety net can keep, after char / byte / string / raw-string literals containing quotes and comment openers" % (MOD, E2E_KINDS)
     return found
 
 
